@@ -36,15 +36,43 @@ class TlcResult:
                    'Finished in' in stdout) and not self.errors
 
     def printed(self):
-        """Values printed with PrintT, one per line, parsed."""
+        """Values printed with PrintT (possibly spread over several lines), parsed."""
         out = []
+        buf = None
+        depth = 0
         for l in self.stdout.splitlines():
-            l = l.strip()
-            if l.startswith('<<') or l.startswith('[') or l.startswith('{'):
+            st = l.strip()
+            if buf is None:
+                if not (st.startswith('<<') or st.startswith('[') or st.startswith('{')):
+                    continue
+                buf = []
+                depth = 0
+            buf.append(st)
+            in_str = False
+            i = 0
+            while i < len(st):
+                ch = st[i]
+                if in_str:
+                    if ch == '\\':
+                        i += 1
+                    elif ch == '"':
+                        in_str = False
+                elif ch == '"':
+                    in_str = True
+                elif st.startswith('<<', i) or st.startswith('>>', i):
+                    depth += 1 if st[i] == '<' else -1
+                    i += 1
+                elif ch in '[{(':
+                    depth += 1
+                elif ch in ']})':
+                    depth -= 1
+                i += 1
+            if depth <= 0:
                 try:
-                    out.append(tlaval.parse(l))
+                    out.append(tlaval.parse(' '.join(buf)))
                 except ValueError:
                     pass
+                buf = None
         return out
 
     def coverage(self):
